@@ -110,6 +110,8 @@ def extra_rules(opts):
     ex = []
     if "R7" in opts:
         ex.append(("R7", opts["R7"]))
+    if opts.get("R5"):
+        ex.append(("R5",))
     for frm, to in opts.get("RX", []):
         ex.append(("RX", frm.split(), to.split()))
     return ex
@@ -321,7 +323,7 @@ def build_unit(repo, overlay_path, out_path):
                 body = "\n".join("    " + l for l in body.split("\n"))
             report["changed"].append({"key": b["key"], "path": b["path"]})
         origin = {"kind": "item", "key": b["key"], "path": b["path"], "src_line": src_line, "ovl_line": b["line"],
-                  "changed": changed, "rules": fired, "emitted_owner": b["opts"].get("impl_header")}
+                  "changed": changed, "rules": fired, "emitted_owner": b["opts"].get("impl_header"), "emitted_name": b["opts"].get("name")}
         report["items"].append(origin)
         if wrap:
             hdr = owner if b["opts"].get("impl_header") is None else b["opts"]["impl_header"]
